@@ -29,9 +29,15 @@ RULE = ("histories of offer(key, version, declared dependencies) / delete(key) /
 ASSUMPTIONS = [
     "time.monotonic() is strictly increasing (the code compares event_time <= prepare time; two equal readings "
     "could drop a needed event - latent risk, hypothesis of every theorem)",
-    "preparers are atomic (no await that suspends), do not raise, and the dependencies they declare are a function "
+    "(model and theorems) preparers are atomic (no await that suspends), do not raise, and the dependencies they declare are a function "
     "of the spec (a re-preparation from the cached spec declares what the offer declared)",
     "delete_from_cache is called without a version (the version-guarded no-op path is C15's)",
+    "(oracle-only streams) a background re-preparation may take any number of loop turns before / after it looks "
+    "its dependencies up; FOREGROUND preparations (inside prepare_and_cache) are atomic for the preparers koreo "
+    "ships - checked by stream 'real' (real prepare_workflow / prepare_value_function under concurrently started "
+    "offers and deletes) - and the generated streams do not suspend the harness's preparers there; what happens "
+    "otherwise are the three KNOWN FINDINGS (latent races a, c, e: corpus/C16/*-latent-race-*.json, "
+    "notes/C16_latent_races.py), reported on every run",
     "declared dependencies are acyclic (a resource only depends on resources with a larger index), so "
     "SubscriptionCycle is never raised",
     "asyncio (CPython 3.13): FIFO ready queue; create_task / future wake-up / cancel / done-callbacks each take "
@@ -486,11 +492,431 @@ def check_history(ctx: Ctx, hist, kind, cases, terms):
     return r
 
 
+# ---------------------------------------------------------------------------------------------
+# oracle-only streams: preparation that is NOT instantaneous (the Coq model keeps its atomicity hypothesis;
+# these streams are a direct oracle on the real code, there is no correspondence for them)
+# ---------------------------------------------------------------------------------------------
+#
+# stream "slow": the sequential histories again, but a background RE-preparation takes time: the harness's
+#   preparer, when it runs inside a re-prepare task, suspends spec["sb"] loop turns before and spec["sa"] turns
+#   after looking its dependencies up in the real cache.  Offers and deletes arrive meanwhile.  "Built from" is
+#   read from the cache itself: every prepared value carries a unique stamp and the stamps of the cached values
+#   it looked up (None = not cached).
+# stream "real": koreo's REAL prepare_workflow / prepare_value_function; Workflows, sub-Workflows and
+#   ValueFunctions are offered / changed / deleted from concurrently started tasks with sleep(0) interleavings.
+#   The real preparers are atomic today; a preparer that starts yielding in the middle is noticed here.
+# Oracle of both: once nothing is scheduled any more, every cached definition holds exactly the objects that are
+# in the cache now for everything it names, and what it names but is missing is reported by it (error step).
+
+IDLE_TURNS = 400
+
+# the three KNOWN FINDINGS (known_findings.d/C16.json): what happens when a FOREGROUND preparation (inside
+# prepare_and_cache) suspends.  Emitted only by the three fixed corpus cases corpus/C16/NN-latent-race-*.json
+# (hist["fg"] = the harness's preparer suspends on the offer path too, hist["latent"] = which race), and only
+# for the staleness they are known for; anything else they do is an ordinary failure.
+LATENT_SIG = {
+    "a": "foreground-suspended first offer: the dependency is offered again before the dependent has subscribed; "
+         "nobody is notified, the dependent stays stale (latent race a)",
+    "c": "foreground-suspended re-offer of a subscribed dependent: the running monitor consumes the change event "
+         "for the old entry, the offer completes with what it looked up before (latent race c)",
+    "e": "dependent deleted while its re-offer is suspended: the offer caches and subscribes without a registered "
+         "queue, a change of the dependency in the same turn is dropped (latent race e)",
+}
+
+
+def _install_clock():
+    from koreo import cache, registry
+    clock = Clock()
+    saved = (cache.time, registry.time)
+    cache.time = clock
+    registry.time = clock
+    return saved
+
+
+def _restore_clock(saved):
+    from koreo import cache, registry
+    cache.time, registry.time = saved
+    try:
+        cache._REPREPARE_TASKS.clear()
+        cache._PREPARE_TIMES.clear()
+        registry._reset_registries()
+    except Exception:
+        pass
+
+
+async def _cleanup(loop, me):
+    from koreo import cache
+    loop.set_exception_handler(lambda lp, context: None)
+    for t in asyncio.all_tasks():
+        if t is not me:
+            t.cancel()
+    cache._reset_cache()
+    cache._REPREPARE_TASKS.clear()
+    cache._PREPARE_TIMES.clear()
+    for _ in range(4):
+        await asyncio.sleep(0)
+
+
+async def _drive_to_idle(loop, problems, spawned):
+    turns = 0
+    while (len(loop._ready) or any(not t.done() for t in spawned)) and turns < IDLE_TURNS:
+        await asyncio.sleep(0)
+        turns += 1
+    if len(loop._ready) or any(not t.done() for t in spawned):
+        problems.append(("the system is not idle after the bounded number of loop turns", turns))
+        return False
+    for t in spawned:
+        if t.cancelled() or t.exception() is not None:
+            problems.append((f"a concurrently started operation raises "
+                             f"{'CancelledError' if t.cancelled() else type(t.exception()).__name__}", t.get_name()))
+    await asyncio.sleep(0)
+    await asyncio.sleep(0)
+    return not len(loop._ready)
+
+
+def run_slow(hist):
+    """stream "slow": ops ["offer", k, v, deps, sb, sa] / ["delete", k] / ["yield"] / ["spawn", op] (create_task) /
+    ["seq", [op, ...]] (several ops in one go); returns the problems.  hist["fg"] (corpus only): the preparer
+    suspends on the offer path too."""
+    from koreo import cache, registry
+    n = hist["n"]
+    hashes = hist.get("hashes") or list(range(n))
+    name_objs = [mk_name(j, hashes[j]) for j in range((n + 1) // 2)]
+    names = [name_objs[i // 2] for i in range(n)]
+    res = [registry.Resource(resource_type=kind_of(i), name=names[i]) for i in range(n)]
+    problems = []
+    serial = itertools.count(1)
+    pristine, offering = {}, [None]
+    stats = {"slow_reprepares": 0}
+
+    def cached_value(i):
+        return cache.get_resource_from_cache(kind_of(i), names[i])
+
+    def stamp_of(i):
+        v = cached_value(i)
+        return None if v is None else v["stamp"]
+
+    async def preparer(key, spec):
+        k = spec["k"]
+        on_monitor = not asyncio.current_task().get_name().startswith("drv")
+        if not on_monitor and not hist.get("fg"):
+            pristine[k] = offering[0]
+        if spec != pristine.get(k) and not hist.get("fg"):
+            problems.append(("a (re-)preparation received a spec that differs from the one offered for the "
+                             "cached version", [k]))
+        sb, sa = (spec["sb"], spec["sa"]) if (on_monitor or hist.get("fg")) else (0, 0)
+        if sb or sa:
+            stats["slow_reprepares"] += 1
+        for _ in range(sb):
+            await asyncio.sleep(0)
+        deps = list(spec["deps"])
+        seen = [[d, stamp_of(d)] for d in deps]              # looked up in the real cache, now
+        for _ in range(sa):
+            await asyncio.sleep(0)
+        spec["nest"]["consumed"].pop("skipIf", None)
+        spec["nest"]["items"].append("seen-by-preparer")
+        spec.pop("nest")
+        return ({"k": k, "stamp": next(serial), "seen": seen}, [res[d] for d in deps] or None)
+
+    async def main():
+        loop = asyncio.get_running_loop()
+        me = asyncio.current_task()
+        me.set_name("drv-main")
+        loop.set_exception_handler(
+            lambda lp, context: problems.append(("the event loop logged an exception",
+                                                 repr(context.get("exception") or context.get("message")))))
+        try:
+            async def do(op):
+                if op[0] == "offer":
+                    _, k, v, deps, sb, sa = op
+                    spec = make_spec(k, v, deps)
+                    spec["sb"], spec["sa"] = sb, sa
+                    offering[0] = copy.deepcopy(spec)
+                    if hist.get("fg"):
+                        pristine[k] = offering[0]      # several offers may be in flight: do not judge specs here
+                    await cache.prepare_and_cache(kind_of(k), preparer,
+                                                  {"name": names[k], "resourceVersion": str(v)}, spec)
+                elif op[0] == "delete":
+                    await cache.delete_from_cache(kind_of(op[1]), names[op[1]])
+                elif op[0] == "seq":
+                    for o in op[1]:
+                        await do(o)
+                else:
+                    await asyncio.sleep(0)
+
+            spawned = []
+            for i, op in enumerate(hist["ops"]):
+                try:
+                    if op[0] == "spawn":
+                        spawned.append(asyncio.create_task(do(op[1]), name=f"drv-{i}"))
+                    else:
+                        await do(op)
+                except Exception as e:
+                    problems.append((f"{op[0]} raises {type(e).__name__}", repr(e)))
+                    return
+            if not await _drive_to_idle(loop, problems, spawned):
+                return
+            for i in range(n):
+                r = res[i]
+                c = cache.get_resource_system_data_from_cache(kind_of(i), names[i])
+                t = cache._REPREPARE_TASKS.get(r)
+                q = registry._SUBSCRIPTION_QUEUES.get(r)
+                subs = sorted(2 * int(str.__str__(x.name)[1:]) + KINDS.index(x.resource_type)
+                              for x in registry._SUBSCRIBER_RESOURCES.get(r, ()))
+                if c is not None:
+                    if c.spec != pristine.get(i) and not hist.get("fg"):
+                        problems.append(("the spec kept in the cache entry is no longer the one that was offered", [i]))
+                    declared = [d for d, _ in c.resource["seen"]]
+                    for d, st in c.resource["seen"]:
+                        if st != stamp_of(d):
+                            problems.append((LATENT_SIG[hist["latent"]] if hist.get("latent") else
+                                             "stale at idle (slow re-preparation): a cached entry was built from a "
+                                             "value of a declared dependency that is not the cached one",
+                                             [i, d, st, stamp_of(d)]))
+                    if subs != sorted(set(declared)):
+                        problems.append(("a cached entry's subscriptions differ from its declared dependencies",
+                                         [i, subs, declared]))
+                    if declared and (t is None or t.done()):
+                        problems.append(("a cached entry with dependencies has no live re-prepare task", [i]))
+                else:
+                    if t is not None:
+                        problems.append(("a resource that is not cached still has a re-prepare task", [i]))
+                    if q is not None:
+                        problems.append(("a resource that is not cached still has a registered queue", [i]))
+                    if subs:
+                        problems.append(("a resource that is not cached still has subscriptions", [i, subs]))
+            live = {t for t in asyncio.all_tasks() if t is not me and not t.done()}
+            if live - set(cache._REPREPARE_TASKS.values()):
+                problems.append(("a monitor task that is nobody's re-preparer is still pending at idle", None))
+        finally:
+            await _cleanup(loop, me)
+
+    saved = _install_clock()
+    try:
+        asyncio.run(main())
+    finally:
+        _restore_clock(saved)
+    return problems, stats
+
+
+# ---- stream "real" ---------------------------------------------------------------------------
+
+FN_NAMES = ["fn-a", "fn-b", "fn-c"]
+WF_NAMES = ["wf-x", "wf-y"]            # wf-y may use wf-x as a sub-workflow, never the other way round
+
+
+def run_real(case):
+    """ops: ["fn", name, version] | ["delfn", name] | ["wf", name, version, [[label, kind, ref], ...]] |
+    ["delwf", name]; script steps: ["do", op] (awaited by the driver) | ["spawn", op] (create_task) | ["yield"]"""
+    from koreo import cache
+    from koreo.result import is_ok, is_unwrapped_ok
+    from koreo.value_function.prepare import prepare_value_function
+    from koreo.value_function.structure import ValueFunction
+    from koreo.workflow.prepare import prepare_workflow
+    from koreo.workflow.structure import Step, Workflow
+    klass = {"ValueFunction": ValueFunction, "Workflow": Workflow}
+    problems = []
+    wf_steps = {}       # workflow name -> steps of the offer that is cached (by version)
+    offered = {}        # (name, version) -> steps
+
+    async def do(op):
+        if op[0] == "fn":
+            await cache.prepare_and_cache(ValueFunction, prepare_value_function,
+                                          {"name": op[1], "resourceVersion": str(op[2])},
+                                          {"return": {"value": op[2]}})
+        elif op[0] == "delfn":
+            await cache.delete_from_cache(ValueFunction, op[1])
+        elif op[0] == "wf":
+            offered[(op[1], str(op[2]))] = op[3]
+            spec = {"steps": [{"label": lab, "ref": {"kind": kind, "name": ref}} for lab, kind, ref in op[3]]}
+            await cache.prepare_and_cache(Workflow, prepare_workflow,
+                                          {"name": op[1], "resourceVersion": str(op[2])}, spec)
+        elif op[0] == "delwf":
+            await cache.delete_from_cache(Workflow, op[1])
+
+    async def main():
+        loop = asyncio.get_running_loop()
+        me = asyncio.current_task()
+        me.set_name("drv-main")
+        loop.set_exception_handler(
+            lambda lp, context: problems.append(("the event loop logged an exception",
+                                                 repr(context.get("exception") or context.get("message")))))
+        spawned = []
+        try:
+            for i, st in enumerate(case["script"]):
+                try:
+                    if st[0] == "do":
+                        await do(st[1])
+                    elif st[0] == "spawn":
+                        spawned.append(asyncio.create_task(do(st[1]), name=f"drv-{i}"))
+                    else:
+                        await asyncio.sleep(0)
+                except Exception as e:
+                    problems.append((f"{st[1][0]} raises {type(e).__name__}", repr(e)))
+                    return
+            if not await _drive_to_idle(loop, problems, spawned):
+                return
+            for name in WF_NAMES:
+                entry = cache.get_resource_system_data_from_cache(Workflow, name)
+                if entry is None:
+                    continue
+                wf = entry.resource
+                steps = offered.get((name, entry.resource_version))
+                if not is_unwrapped_ok(wf) or steps is None or len(wf.steps) != len(steps):
+                    problems.append(("real preparers: a cached Workflow is not the prepared form of its offer",
+                                     [name, repr(wf)[:200]]))
+                    continue
+                for step, (lab, kind, ref) in zip(wf.steps, steps):
+                    current = cache.get_resource_from_cache(klass[kind], ref)
+                    if current is None:
+                        if isinstance(step, Step) or is_ok(wf.steps_ready):
+                            problems.append(("real preparers, stale at idle: a cached Workflow still holds (or reports "
+                                             "ready with) a definition that is no longer cached", [name, lab, kind, ref]))
+                    elif not isinstance(step, Step):
+                        problems.append(("real preparers, stale at idle: a cached Workflow has an error step for a "
+                                         "definition that is cached", [name, lab, kind, ref]))
+                    elif step.logic is not current:
+                        problems.append(("real preparers, stale at idle: a cached Workflow holds a definition that is "
+                                         "not the cached one", [name, lab, kind, ref]))
+            live = {t for t in asyncio.all_tasks() if t is not me and not t.done()}
+            if live - set(cache._REPREPARE_TASKS.values()):
+                problems.append(("a monitor task that is nobody's re-preparer is still pending at idle", None))
+        finally:
+            await _cleanup(loop, me)
+
+    saved = _install_clock()
+    try:
+        asyncio.run(main())
+    finally:
+        _restore_clock(saved)
+    return problems
+
+
+# ---- generators of the two streams -------------------------------------------------------------
+
+def slow_bases():
+    # the dependent's re-preparation is in flight (after it looked the dependency up) when the dependency
+    # changes again / is deleted / the dependent itself is offered again or deleted
+    for sb, sa in ((0, 2), (1, 1), (0, 3), (2, 0)):
+        yield 3, [["offer", 2, 1, [], 0, 0], ["offer", 0, 1, [2], sb, sa], ["offer", 2, 2, [], 0, 0],
+                  ["offer", 2, 3, [], 0, 0]]
+        yield 3, [["offer", 2, 1, [], 0, 0], ["offer", 0, 1, [2], sb, sa], ["offer", 2, 2, [], 0, 0], ["delete", 2]]
+        yield 3, [["offer", 2, 1, [], 0, 0], ["offer", 0, 1, [2], sb, sa], ["offer", 2, 2, [], 0, 0],
+                  ["offer", 0, 2, [2], 0, 1]]
+        yield 3, [["offer", 2, 1, [], 0, 0], ["offer", 0, 1, [2], sb, sa], ["offer", 2, 2, [], 0, 0], ["delete", 0],
+                  ["offer", 0, 2, [2], 0, 0]]
+        # a chain: both levels slow
+        yield 4, [["offer", 3, 1, [], 0, 0], ["offer", 2, 1, [3], sb, sa], ["offer", 0, 1, [2], sa, sb],
+                  ["offer", 3, 2, [], 0, 0], ["offer", 3, 3, [], 0, 0]]
+
+
+def gen_slow(ctx: Ctx):
+    rng = ctx.rng
+    top = 3 if ctx.quick() else 4
+    for n, base in slow_bases():
+        for ys in itertools.product(range(top + 1), repeat=len(base) - 1):
+            yield {"stream": "slow", "n": n, "hashes": [1, 2, 3, 4], "ops": with_yields(base, list(ys) + [0])}
+    for _ in range(400 if ctx.quick() else 5000):
+        n = rng.choice([3, 4, 4])
+        base = rand_base(rng, n, rng.randint(3, 10))
+        for op in base:
+            if op[0] == "offer":
+                op += [rng.choice([0, 0, 1, 2]), rng.choice([0, 1, 2, 3])]
+        ys = [rng.choice([0, 1, 1, 2, 3, 5]) for _ in base]
+        yield {"stream": "slow", "n": n, "hashes": rand_hashes(rng, n), "ops": with_yields(base, ys)}
+
+
+def rand_wf_steps(rng, name):
+    pool = [("ValueFunction", f) for f in FN_NAMES] + ([("Workflow", "wf-x")] if name == "wf-y" else [])
+    k = rng.randint(1, 4)
+    return [[f"step{i}", *rng.choice(pool)] for i in range(k)]
+
+
+def real_bases():
+    three = [["first", "ValueFunction", "fn-a"], ["second", "ValueFunction", "fn-b"], ["third", "ValueFunction", "fn-a"]]
+    for change in (["fn", "fn-a", 2], ["delfn", "fn-a"], ["fn", "fn-b", 2], ["delfn", "fn-b"]):
+        yield [["fn", "fn-a", 1], ["fn", "fn-b", 1], ["wf", "wf-x", 1, three], change]
+        yield [["fn", "fn-a", 1], ["fn", "fn-b", 1], ["wf", "wf-x", 1, three], ["wf", "wf-x", 2, three[::-1]], change]
+    yield [["fn", "fn-a", 1], ["wf", "wf-x", 1, three[:2]], ["wf", "wf-y", 1, [["sub", "Workflow", "wf-x"], ["own", "ValueFunction", "fn-a"]]],
+           ["fn", "fn-b", 1], ["fn", "fn-a", 2]]
+
+
+def gen_real(ctx: Ctx):
+    rng = ctx.rng
+    # every way of starting the last two operations (awaited / as a task) with 0..5 turns in between
+    for base in real_bases():
+        head, tail = base[:-2], base[-2:]
+        for m1, m2 in itertools.product(("do", "spawn"), repeat=2):
+            for gap in range(0, 6):
+                script = [["do", op] for op in head] + [["yield"]] * 2
+                script += [[m1, tail[0]]] + [["yield"]] * gap + [[m2, tail[1]]]
+                yield {"stream": "real", "script": script}
+    for _ in range(150 if ctx.quick() else 2500):
+        ver = {}
+        script = []
+        for _ in range(rng.randint(3, 9)):
+            r = rng.random()
+            if r < 0.4:
+                f = rng.choice(FN_NAMES)
+                ver[f] = ver.get(f, 0) + 1
+                op = ["fn", f, ver[f]]
+            elif r < 0.55:
+                op = ["delfn", rng.choice(FN_NAMES)]
+            elif r < 0.9:
+                w = rng.choice(WF_NAMES)
+                ver[w] = ver.get(w, 0) + 1
+                op = ["wf", w, ver[w], rand_wf_steps(rng, w)]
+            else:
+                op = ["delwf", rng.choice(WF_NAMES)]
+            script.append([rng.choice(["do", "spawn", "spawn"]), op])
+            script += [["yield"]] * rng.choice([0, 0, 1, 1, 2, 3])
+        yield {"stream": "real", "script": script}
+
+
+def run_stream(case):
+    if case.get("stream") == "slow":
+        return run_slow(case)[0]
+    return run_real(case)
+
+
+def check_stream(ctx: Ctx, case):
+    stream = case["stream"]
+    if stream == "slow":
+        problems, stats = run_slow(case)
+        ctx.count("slow:reprepares_that_suspend", stats["slow_reprepares"])
+        ctx.note_case(case, nontrivial=stats["slow_reprepares"] > 0)
+    else:
+        problems = run_real(case)
+        ctx.note_case(case, nontrivial=True)
+    ctx.count(f"stream:{stream}")
+    seen = set()
+    for sig, detail in problems:
+        if sig in seen:
+            continue
+        seen.add(sig)
+        key = "ops" if stream == "slow" else "script"
+
+        def still(xs, sig=sig):
+            return any(s == sig for s, _ in run_stream(dict(case, **{key: xs})))
+        small = case if case.get("latent") else dict(case, **{key: shrink_list(case[key], still)})
+        ctx.fail(Failure(signature=sig, what=sig, case=small,
+                         observed=[list(p) for p in run_stream(small)][:6],
+                         expected="once nothing is scheduled, every cached definition holds the cached objects of "
+                                  "everything it names; nothing raised or logged"))
+
+
 def run(ctx: Ctx):
     cases, terms = [], []
     logging.disable(logging.CRITICAL)
     for hist, kind in gen_histories(ctx):
+        if hist.get("stream"):
+            check_stream(ctx, hist)
+            continue
         check_history(ctx, hist, kind, cases, terms)
+    for case in gen_slow(ctx):
+        check_stream(ctx, case)
+    for case in gen_real(ctx):
+        check_stream(ctx, case)
     if ctx.model_ok:
         ctx.correspond("koreo.cache/registry + event loop vs Loop.step (state after every op)",
                        "Corr_C16", cases, terms)
@@ -499,6 +925,9 @@ def run(ctx: Ctx):
 def replay(ctx: Ctx, data):
     hist = data["case"] if "case" in data else data
     cases, terms = [], []
+    if hist.get("stream"):
+        check_stream(ctx, hist)
+        return
     check_history(ctx, hist, "replay", cases, terms)
     if ctx.model_ok and cases:
         ctx.correspond("replay", "Corr_C16", cases, terms)
